@@ -35,7 +35,9 @@ type genItem struct {
 	Tags    bool   `json:"tags"`
 	Private bool   `json:"private"`
 	PtrRecv bool   `json:"ptr_recv"`
-	Err     string `json:"err,omitempty"`
+	// Combined selects ImportGenerationModeCombined (default: separate)
+	Combined bool   `json:"combined,omitempty"`
+	Err      string `json:"err,omitempty"`
 }
 
 type corpusEntry struct {
@@ -48,7 +50,7 @@ type corpusEntry struct {
 
 // buildCorpus writes the schemas, runs the real generator over them and
 // writes the glue; returns the module directory.
-func buildCorpus(ctx *Ctx, pkgs []*corpus.Pkg, opts []OptSet, tier corpus.Tier) (string, []*corpusEntry, error) {
+func buildCorpus(ctx *Ctx, pkgs []*corpus.Pkg, opts []OptSet, tier corpus.Tier, optFilter func(*corpus.Pkg, OptSet) bool) (string, []*corpusEntry, error) {
 	mod := filepath.Join(ctx.Work, "corp")
 	if err := os.MkdirAll(mod, 0o755); err != nil {
 		return "", nil, err
@@ -69,9 +71,13 @@ func buildCorpus(ctx *Ctx, pkgs []*corpus.Pkg, opts []OptSet, tier corpus.Tier) 
 		return "", nil, fmt.Errorf("building bopgen against %s failed (does the repository compile?): %v\n%s", ctx.Repo, err, out)
 	}
 	var entries []*corpusEntry
-	var items []*genItem
+	var items, depItems []*genItem
+	var depOwner []int // entry index of each dep item
 	for _, o := range opts {
 		for _, p := range pkgs {
+			if optFilter != nil && !optFilter(p, o) {
+				continue
+			}
 			name := p.Name
 			if len(opts) > 1 || o.Name != "base" {
 				name = p.Name + "_" + o.Name
@@ -79,13 +85,31 @@ func buildCorpus(ctx *Ctx, pkgs []*corpus.Pkg, opts []OptSet, tier corpus.Tier) 
 			dir := filepath.Join(mod, name)
 			os.MkdirAll(dir, 0o755)
 			bop := filepath.Join(dir, "schema.bop")
-			os.WriteFile(bop, []byte(p.Schema.Bop()), 0o644)
 			cp := *p
 			cp.Name = name
+			if p.ImportMode != "" {
+				// two files: the importing schema and dep/dep.bop
+				os.MkdirAll(filepath.Join(dir, "dep"), 0o755)
+				os.WriteFile(bop, []byte(p.Schema.MainBop("corp/"+name)), 0o644)
+				depBop := filepath.Join(dir, "dep", "dep.bop")
+				depPkg := "corp/" + name + "/dep"
+				if p.ImportMode == "combined" {
+					depPkg = "" // combined mode merges the consts of both files: one go_package only
+				}
+				os.WriteFile(depBop, []byte(p.Schema.DepBop(depPkg)), 0o644)
+				if p.ImportMode == "separate" {
+					depItems = append(depItems, &genItem{Bop: depBop, Out: filepath.Join(dir, "dep", "gen.go"), Package: "dep", Unsafe: o.Unsafe, Shared: o.Shared, Tags: o.Tags, Private: o.Private, PtrRecv: o.PtrRecv})
+					depOwner = append(depOwner, len(entries))
+				}
+			} else {
+				os.WriteFile(bop, []byte(p.Schema.Bop()), 0o644)
+			}
 			entries = append(entries, &corpusEntry{Pkg: &cp, Opt: o, Dir: dir, Name: name})
-			items = append(items, &genItem{Bop: bop, Out: filepath.Join(dir, "gen.go"), Package: name, Unsafe: o.Unsafe, Shared: o.Shared, Tags: o.Tags, Private: o.Private, PtrRecv: o.PtrRecv})
+			items = append(items, &genItem{Bop: bop, Out: filepath.Join(dir, "gen.go"), Package: name, Unsafe: o.Unsafe, Shared: o.Shared, Tags: o.Tags, Private: o.Private, PtrRecv: o.PtrRecv, Combined: p.ImportMode == "combined"})
 		}
 	}
+	nMain := len(items)
+	items = append(items, depItems...)
 	jf, rf := filepath.Join(ctx.Work, "bopgen-in.json"), filepath.Join(ctx.Work, "bopgen-out.json")
 	b, _ := json.Marshal(items)
 	os.WriteFile(jf, b, 0o644)
@@ -101,8 +125,16 @@ func buildCorpus(ctx *Ctx, pkgs []*corpus.Pkg, opts []OptSet, tier corpus.Tier) 
 	if err := json.Unmarshal(data, &res); err != nil {
 		return "", nil, err
 	}
-	for i, r := range res {
+	for i := nMain; i < len(res); i++ {
+		if res[i].Err != "" {
+			entries[depOwner[i-nMain]].Err = "imported file: " + res[i].Err
+		}
+	}
+	for i, r := range res[:nMain] {
 		e := entries[i]
+		if e.Err != "" {
+			continue
+		}
 		if r.Err != "" {
 			e.Err = r.Err
 			continue
